@@ -153,5 +153,12 @@ def fill(claim, na):
           "to int, de-duplicated and passed through filter_worst_knees on every path; extremes are [0, n-1] in both variants.",
           "Ranges of x and y non-zero; numerical width/height tests not decided.",
           "DESIGN.md 3/C14")
-    for pid in ["C10"]:
-        na(pid, PENDING)
+    claim("C10", "other", "guard normalisation and implication (finite sign enumeration) on the exclusion masks / selection guards + normal-form equality of W, H + structural sweep rule",
+          "Decides the structural part for all inputs: at both exclusion sites the kept points lie outside the selected knee's x band "
+          "and y band; a candidate is selected only if it is at least H away in y from every selected knee; the final sweep visits x "
+          "ascending and deletes exactly the knees higher than the running minimum; W = max(1, int(x_max*dx)), H = (y_max-y_min)*dy "
+          "with the stated defaults; x values are mapped to indices by searchsorted on the x column. Termination, the iteration "
+          "bound and x-separation among same-round candidates are not decided.",
+          "Integer x, y in [0,1]; W, H >= 0.",
+          "DESIGN.md 3/C10")
+
